@@ -3,4 +3,6 @@ NEXT Next
 CONSTANT Polys = {128, 140, 171, 184, 224, 225, 255, 149}
 INVARIANT Width8
 INVARIANT Forge
+INVARIANT RunsThm
+INVARIANT RunsThm32
 CHECK_DEADLOCK FALSE
